@@ -217,6 +217,20 @@ class FsMixin:
         v = z3.Select(arr, lift(args[0], KStr).z)
         return SVal({'zk_exists': KBool, 'zk_owner': KInt, 'zk_content': KAny}[name], [v])
 
+    def model_join_zookeeper_path(self, st, fr, args, kwargs):
+        """zknamespace.join_zookeeper_path(root, *child) = '/'.join((root,) + child): the child-path function cp applied
+        once per component (cp is declared by the contract module; its injectivity is an axiom there)."""
+        cp = self.reg.ufuncs['cp'][0]
+        cur = lift(args[0], KStr).z
+        for a in args[1:]:
+            cur = cp(cur, lift(a, KStr).z)
+        return [(st, SVal(KStr, [cur]))]
+
+    def model_with_retry(self, st, fr, args, kwargs):
+        """zkutils.with_retry(func, *args, **kwargs): calls func(*args, **kwargs) (again after a connection loss, which is
+        not modelled): one call."""
+        return self.call_value(st, fr, args[0], list(args[1:]), dict(kwargs))
+
     def _nm(self, v):
         if isinstance(v, SVal) and v.kind in (KName, KInt):
             return v.z
